@@ -1,5 +1,6 @@
 """C18 — Logbook and statistics record every entry once, in order, chapters aligned
 (deap/tools/support.py: Statistics, MultiStatistics, Logbook)."""
+import collections
 import copy
 import itertools
 import pickle
@@ -12,12 +13,17 @@ from deap.tools import support
 
 ANCHORS = [("deap/tools/support.py", ["Statistics", "MultiStatistics", "Logbook", "identity"])]
 LEVEL = "proof"
-RULE = ("exhaustive: every sequence of length <= 4 (quick) / 5 (thorough) over {record, stream, pop(0), pop(-1), del[0], "
-        "del[-1], del[0:2], del[::-2], select, pickle} + final stream, without chapter, with one chapter, and (one op shorter) with a chapter holding a sub-chapter; random: histories of "
-        "length <= 12 over records with 0..3 chapters (sub-chapters, optional fields, colliding keys, non-uniform chapter "
-        "sets), positive/negative/out-of-range indices, slices with steps +-1,+-2,+-3, explicit/default headers, "
-        "log_header, pickle protocols 0..5; statistics: 1..3 statistics objects x 5 key functions x 8 functions with frozen "
-        "positional/keyword arguments, re-registration, statistics objects sharing one key function object and the same field names but different functions, compile -> record pipelines. "
+RULE = ("fixed witnesses of the repaired defects (F3, F4, F5, F12); enumeration of operation sequences over {record, stream, "
+        "pop(), pop(-1), del[0], del[-1], del[0:2], del[::-2], select, pickle} (plus `chapters[..].stream` when there is a chapter) "
+        "followed by a final stream, in three configurations: no chapter, one chapter, one chapter holding a sub-chapter (one op "
+        "shorter) - quick: all sequences of length <= 3 and a RANDOM HALF of those of length 4; thorough: all of length <= 5; "
+        "statistics: 1..3 statistics objects x key functions (identity default, len, item0, last, sum, tuple-valued fit1/fit2) x "
+        "14 functions with 0..2 frozen positional and keyword arguments, re-registration, objects sharing one key function object "
+        "and the same field names, compile -> record pipelines; random histories of length <= 12 over records with 0..3 chapters: "
+        "sub-chapters, optional fields, None / float / str valued fields, colliding keys, records WITHOUT scalar fields, the same "
+        "dict object handed to several record() calls, dict / OrderedDict / defaultdict values, non-uniform chapter sets, "
+        "positive/negative/out-of-range indices, slices with steps +-1,+-2,+-3, select with repeated names, streams of single "
+        "chapters and sub-chapters, explicit/default headers, log_header, pickle protocols 0..5. "
         "Non-trivial = distinct history with at least one deletion/pop/stream after a record, or a statistics case with "
         "a frozen argument or more than one function")
 EXHAUSTIVE = {"quick": False, "thorough": False}
@@ -36,7 +42,8 @@ ASSUMPTIONS = ["chapter alignment (at every depth) is demanded for logbooks all 
 EXPLANATION = ("Theorems C18.* are proved over all histories of the model Core/Logbook.lean (no length bound); the correspondence "
                "compares, after every operation of a history, the complete observable state (rows, buffindex, every chapter "
                "recursively, header settings) and the operation's result; the oracle re-derives the expected logbook from the "
-               "statement with plain Python list semantics.")
+               "statement with plain Python list semantics. Pickling has no Lean theorem (the model's pickle is the identity on the "
+               "state): it is established by this correspondence only.")
 
 Logbook = tools.Logbook
 
@@ -59,6 +66,19 @@ def is_dict(v):
     return isinstance(v, dict)
 
 
+# scalar values other than integers travel as reserved integer codes (the model never computes on values)
+VALCODES = [(None, 900001), (2.5, 900002), (-0.5, 900003), ("ab", 900004), ("x", 900005), (1e+20, 900006)]
+
+
+def enc_val(v):
+    if isinstance(v, int) and not isinstance(v, bool):
+        return v
+    for val, code in VALCODES:
+        if type(val) is type(v) and val == v:
+            return code
+    return None
+
+
 def enc_items(e):
     out = []
     for k, v in e.items():
@@ -67,7 +87,7 @@ def enc_items(e):
             out.extend(enc_items(v))
             out.append(">")
         else:
-            out.append("%d=%d" % (NUM[k], v))
+            out.append("%d=%d" % (NUM[k], enc_val(v)))
     return out
 
 
@@ -76,7 +96,8 @@ def enc_entry(e):
 
 
 def show_val(v):
-    return str(v) if isinstance(v, int) and not isinstance(v, bool) else "<%r>" % (v,)
+    c = enc_val(v)
+    return str(c) if c is not None else "<%r>" % (v,)
 
 
 def show_row(r):
@@ -90,7 +111,7 @@ def show_row(r):
 def dump(lb):
     rows = "/".join(show_row(r) for r in lb) or "-"
     chs = sorted(lb.chapters.items(), key=lambda kv: NUM.get(kv[0], 99))
-    return "[%s:%s:%s]" % (lb.buffindex, rows, "".join("%d%s" % (NUM.get(k, 99), dump(ch)) for k, ch in chs) or "-")
+    return "[%s%s:%s:%s]" % (lb.buffindex, "*" if getattr(lb, "header_streamed", False) else "", rows, "".join("%d%s" % (NUM.get(k, 99), dump(ch)) for k, ch in chs) or "-")
 
 
 def dump_state(lb):
@@ -150,6 +171,30 @@ def has_sub(entries):
     return any(dict_keys(chapter_entry(e, c)) for e in entries for c in dict_keys(e))
 
 
+def rid_of(e):
+    """the record id: a scalar field of the record, or (records without scalar fields) of its dictionaries"""
+    if "rid" in e:
+        return e["rid"]
+    for v in e.values():
+        if is_dict(v) and "rid" in v:
+            return v["rid"]
+    return None
+
+
+def to_py(v, cls):
+    """the Python object for a (nested) dictionary of the description: a dict, an OrderedDict or a defaultdict"""
+    if not is_dict(v):
+        return v
+    items = [(k, to_py(x, cls)) for k, x in v.items()]
+    if cls == "ordered":
+        return collections.OrderedDict(items)
+    if cls == "default":
+        dd = collections.defaultdict(int)
+        dd.update(items)
+        return dd
+    return dict(items)
+
+
 class Shadow(object):
     """Plain-list bookkeeping of a history, written from the statement; pure (does not touch DEAP)."""
 
@@ -202,7 +247,7 @@ def plan(ops):
     for op in ops:
         k = op[0]
         executed = True
-        if k in ("stream", "str"):
+        if k in ("stream", "str", "cstream"):
             executed = sh.printable()
         out.append((executed, {"entries": list(sh.entries), "delivered": dict(sh.delivered), "lost": sh.lost}))
         if sh.lost or not executed:
@@ -232,7 +277,7 @@ def plan(ops):
                     del sh.entries[sl]
         elif k == "stream":
             for e in sh.entries:
-                sh.delivered[e["rid"]] = 1
+                sh.delivered[rid_of(e)] = 1
     return out
 
 
@@ -294,6 +339,17 @@ def run_history(ops):
             failure[0] = msg
 
     n_stream = 0
+    pool = {}               # shared dictionary OBJECTS: the same dict handed to several record() calls
+    cdelivered = {}         # chapter path -> rid -> times delivered by that chapter's own stream
+    cheaders = {}
+
+    def top_tok(r):
+        """what the model shows for a delivered row: its top-level record id, `?` when the record has none"""
+        for e in sh.ever:
+            if rid_of(e) == r:
+                return str(r) if "rid" in e else "?"
+        return str(r)
+
     for j, op in enumerate(ops):
         k = op[0]
         executed = pl[j][0]
@@ -303,8 +359,19 @@ def run_history(ops):
         checks = not sh.lost
         if k == "rec":
             e = op[1]
+            opts = op[2] if len(op) > 2 else {}
             toks.append("R:" + enc_entry(e))
-            log.record(**copy.deepcopy(e))
+            kwargs = {}
+            for key, v in e.items():
+                if is_dict(v) and opts.get("shared") is not None and key in opts.get("shared_keys", []):
+                    # the caller passes the very same dict object to several record() calls
+                    pk = (opts["shared"], key)
+                    if pk not in pool:
+                        pool[pk] = to_py(copy.deepcopy(v), opts.get("cls"))
+                    kwargs[key] = pool[pk]
+                else:
+                    kwargs[key] = to_py(copy.deepcopy(v), opts.get("cls"))
+            log.record(**kwargs)
             sh.record(e)
         elif k == "sel":
             path, names = op[1], op[2]
@@ -335,8 +402,8 @@ def run_history(ops):
             toks.append("S" if k == "stream" else "P")
             text = log.stream if k == "stream" else str(log)
             h, rids, consistent = parse_text(text)
-            obs = "t%d:%s" % (h, ",".join(str(r) for r in rids) or "-")
-            surviving = [e["rid"] for e in sh.entries]
+            obs = "t%d:%s" % (h, ",".join(top_tok(r) for r in rids) or "-")
+            surviving = [rid_of(e) for e in sh.entries]
             if not consistent:
                 fail("op %d: a printed line mixes different records (chapter columns out of step): %r" % (j, text))
             if h > 1:
@@ -363,6 +430,42 @@ def run_history(ops):
                     if len(header_ops) >= 2 and f5[0] is None:
                         f5[0] = "header delivered twice: the streams at ops #%d and #%d both carried a header" % (header_ops[-2], j)
                         fail(f5[0])
+        elif k == "cstream":
+            path = op[1]
+            toks.append("C:%s" % ".".join(str(NUM[c]) for c in path))
+            ch = log
+            for c in path:
+                ch = ch.chapters.get(c) if isinstance(ch, Logbook) and c in ch.chapters else None
+                if ch is None:
+                    break
+            if ch is None:
+                obs = "nopath"
+            else:
+                text = ch.stream
+                h, rids, consistent = parse_text(text)
+                obs = "t%d:%s" % (h, ",".join(str(r) for r in rids) or "-")
+                surviving = [rid_of(e) for e in sh.entries]
+                key = tuple(path)
+                dl = cdelivered.setdefault(key, {})
+                if not consistent:
+                    fail("op %d: a line of the chapter stream mixes different records: %r" % (j, text))
+                if h > 1:
+                    fail("op %d: one chapter text carries %d header lines" % (j, h))
+                for r in rids:
+                    dl[r] = dl.get(r, 0) + 1
+                    if dl[r] > 1:
+                        fail("op %d: chapter %s delivered record %d a second time" % (j, "/".join(path), r))
+                    if r not in surviving:
+                        fail("op %d: chapter %s delivered record %d which is not in the logbook" % (j, "/".join(path), r))
+                missing = [r for r in surviving if dl.get(r, 0) == 0]
+                if missing:
+                    fail("op %d: chapter %s never delivered the records %r" % (j, "/".join(path), missing))
+                if [r for r in surviving if r in rids] != rids:
+                    fail("op %d: chapter %s delivered %r out of order" % (j, "/".join(path), rids))
+                if h >= 1:
+                    cheaders[key] = cheaders.get(key, 0) + 1
+                    if cheaders[key] > 1:
+                        fail("op %d: chapter %s delivered its header a second time" % (j, "/".join(path)))
         elif k == "pop":
             i = op[1]
             toks.append("O:%d" % (0 if i is None else i))
@@ -474,14 +577,40 @@ def f_wsum(values):
     return sum((j + 1) * v for j, v in enumerate(values))
 
 
-PLAIN = {"sum": sum, "len": len, "max": max, "min": min, "wsum": f_wsum, "lin": f_lin, "cnt": f_cnt, "nth": f_nth}
-KEYS = {"len": len, "item0": itemgetter(0), "last": lambda ind: ind[-1], "sum": sum}
+def f_lin2(a, b, values):
+    return a * sum(values) + b
+
+
+def f_tsum(values):
+    return sum(sum(t) for t in values)
+
+
+def f_tmax0(values):
+    return max(t[0] for t in values)
+
+
+def f_twidth(values):
+    return len(values[0])
+
+
+def f_tlin(a, values, b=0):
+    return a * f_tsum(values) + b
+
+
+PLAIN = {"sum": sum, "len": len, "max": max, "min": min, "wsum": f_wsum, "lin": f_lin, "lin2": f_lin2, "cnt": f_cnt,
+         "nth": f_nth, "tlen": len, "tsum": f_tsum, "tmax0": f_tmax0, "twidth": f_twidth, "tlin": f_tlin}
+KEYS = {"len": len, "item0": itemgetter(0), "last": lambda ind: ind[-1], "sum": sum,
+        # tuple-valued keys, like `ind.fitness.values`
+        "fit1": lambda ind: (ind[0],), "fit2": lambda ind: (ind[0], ind[-1])}
+TUPLE_KEYS = ("fit1", "fit2")
 
 
 def frozen(fn, args):
     """positional and keyword arguments frozen at registration: ((args), {kwargs})"""
-    if fn == "lin":
+    if fn in ("lin", "tlin"):
         return (args[0],), ({"b": args[1]} if len(args) > 1 else {})
+    if fn == "lin2":
+        return (args[0], args[1]), {}          # two frozen positional arguments
     if fn in ("cnt", "nth"):
         return (args[0],), {}
     return (), {}
@@ -578,7 +707,7 @@ def eval_stats(d):
         if not plain and [c[2] for c in calls if c[0] == "key"] != pydata:
             orc = "key function applied to %r, data is %r" % ([c[2] for c in calls if c[0] == "key"], pydata)
     nontrivial = len(regs) > 1 or any(a for _, _, a in regs)
-    return Case(d, ["C18 stats " + " ".join(toks)], [show_rec(res) if isinstance(res, dict) else repr(res)], orc,
+    return Case(d, ["C18 %s " % ("statst" if keycode in TUPLE_KEYS else "stats") + " ".join(toks)], [show_rec(res) if isinstance(res, dict) else repr(res)], orc,
                 tag="stats/key=%s/fns=%d%s" % (keycode, len(set(r[0] for r in regs)), "/rereg" if len(set(r[0] for r in regs)) < len(regs) else ""),
                 nontrivial=nontrivial)
 
@@ -701,6 +830,8 @@ def evaluate(d):
 # ------------------------------------------------------------------------------------------------
 
 def val(rng):
+    if rng.random() < 0.12:
+        return rng.choice([None, 2.5, -0.5, "ab", "x", 1e+20])     # None-valued, float and str fields
     return rng.randint(-9, 99)
 
 
@@ -714,12 +845,38 @@ class Schema(object):
         self.chkeys = dict((c, rng.sample(["max", "q", "avg", "min", "a", "gen"], rng.randint(0, 3))) for c in self.chs)
         self.sub = (rng.random() < 0.15) if sub is None else sub
         self.subs = dict((c, rng.sample(SUBS, rng.randint(1, 2))) for c in self.chs) if self.sub else {}
+        # records without any scalar field (log.record(fit={...}, size={...})): the record id sits in the dictionaries
+        self.noscalars = bool(self.chs) and rng.random() < 0.12
+        # the caller keeps ONE dictionary object per chapter and hands it to several record() calls
+        self.shared = bool(self.chs) and not self.noscalars and rng.random() < 0.2
+        self.shared_data = None
+
+    def opts(self, rng, e):
+        o = {}
+        if any(is_dict(v) for v in e.values()):
+            o["cls"] = rng.choice(["dict", "dict", "dict", "ordered", "default"])
+        if self.shared and self.shared_data is not None and e.get("_shared"):
+            o["shared"] = 0
+            o["shared_keys"] = list(self.shared_data)
+        e.pop("_shared", None)
+        return o
 
     def entry(self, rng, rid, perturb=0.0):
-        e = {"rid": rid}
-        for f in self.fields:
+        bare = self.noscalars and not perturb and rng.random() < 0.6
+        e = {} if bare else {"rid": rid}
+        for f in ([] if bare else self.fields):
             if rng.random() < 0.8:          # optional fields
                 e[f] = val(rng)
+        if self.shared and not perturb and rng.random() < 0.7:
+            if self.shared_data is None:
+                self.shared_data = dict((c, dict((kk, val(rng)) for kk in self.chkeys.get(c, ["max"])))
+                                        for c in self.chs)
+            for c in self.chs:
+                e[c] = copy.deepcopy(self.shared_data[c])
+            e["_shared"] = True
+            items = list(e.items())
+            rng.shuffle(items)
+            return dict(items)
         chs = list(self.chs)
         if perturb and rng.random() < perturb:
             r = rng.random()
@@ -736,8 +893,10 @@ class Schema(object):
             for s in self.subs.get(c, []):
                 if rng.random() < 0.9 or not perturb:
                     dct[s] = dict((kk, val(rng)) for kk in rng.sample(["q", "min", "b"], rng.randint(0, 2)))
+            if bare:
+                dct["rid"] = rid
             e[c] = dct
-        if self.sub and rng.random() < 0.1 and chs:
+        if self.sub and rng.random() < 0.1 and chs and not bare:
             e[rng.choice(SUBS)] = val(rng)   # a scalar that overrides a sub-dictionary key in the chapters
         items = list(e.items())
         rng.shuffle(items)
@@ -767,15 +926,23 @@ def rand_history(rng, length, perturb=0.0, nch=None, sub=None, oob=0.08):
         if profile == "delete-heavy" and n >= 2:
             w_rec = 0.2
         if r < w_rec:
-            ops.append(["rec", sc.entry(rng, rid, perturb)])
+            e = sc.entry(rng, rid, perturb)
+            o = sc.opts(rng, e)
+            ops.append(["rec", e, o] if o else ["rec", e])
             rid += 1
             n += 1
             continue
         r = rng.random()
-        if profile == "stream-heavy" and r < 0.4 or r < 0.2:
+        if sc.chs and rng.random() < 0.12:
+            c = rng.choice(sc.chs)                      # a chapter is a logbook: stream it on its own
+            path = [c]
+            if sc.subs.get(c) and rng.random() < 0.4:
+                path.append(rng.choice(sc.subs[c]))
+            ops.append(["cstream", path])
+        elif profile == "stream-heavy" and r < 0.4 or r < 0.2:
             ops.append(["stream"])
         elif r < 0.3:
-            names = rng.sample(["rid", "gen", "a", "b", "max", "q"], rng.choice([0, 1, 1, 2, 3]))
+            names = rng.choices(["rid", "gen", "a", "b", "max", "q"], k=rng.choice([0, 1, 1, 2, 3, 4]))   # names may repeat
             path = []
             if sc.chs and rng.random() < 0.5:
                 c = rng.choice(sc.chs)
@@ -809,6 +976,8 @@ def rand_history(rng, length, perturb=0.0, nch=None, sub=None, oob=0.08):
             ops.append(["str"])
         elif r < 0.95:
             cols = ["rid"] + rng.sample(sc.fields + sc.chs + ["q"], rng.randint(0, min(3, len(sc.fields + sc.chs) + 1)))
+            if sc.noscalars:
+                cols = ["rid"] + list(sc.chs)           # the record id is only visible in the chapter columns
             rng.shuffle(cols)
             ops.append(["hdr", None if rng.random() < 0.3 else cols])
         else:
@@ -850,6 +1019,8 @@ def exh_history(seq, chapter):
                         ["rid", "max"] if chapter else ["gen"]])
         elif s == "pickle":
             ops.append(["pickle", 2])
+        elif s == "cstream":
+            ops.append(["cstream", ["fit", "s1"] if chapter == 2 else ["fit"]])
     ops.append(["stream"])
     return {"k": "hist", "ops": ops}
 
@@ -859,9 +1030,15 @@ def rand_data(rng, nonempty):
     return [[rng.randint(-9, 30) for _ in range(rng.randint(1, 4))] for _ in range(n)]
 
 
-def rand_reg(rng, names):
-    fn = rng.choice(["sum", "len", "max", "min", "wsum", "lin", "lin", "cnt", "nth"])
-    if fn == "lin":
+def rand_reg(rng, names, tuples=False):
+    if tuples:
+        fn = rng.choice(["tlen", "tsum", "tmax0", "twidth", "tlin"])
+        args = ([rng.randint(-3, 5)] + ([rng.randint(-9, 9)] if rng.random() < 0.7 else [])) if fn == "tlin" else []
+        return rng.choice(names), fn, args
+    fn = rng.choice(["sum", "len", "max", "min", "wsum", "lin", "lin", "lin2", "cnt", "nth"])
+    if fn == "lin2":
+        args = [rng.randint(-3, 5), rng.randint(-9, 9)]
+    elif fn == "lin":
         args = [rng.randint(-3, 5)] + ([rng.randint(-9, 9)] if rng.random() < 0.7 else [])
     elif fn == "cnt":
         args = [rng.randint(-5, 20)]
@@ -876,6 +1053,10 @@ STAT_NAMES = ["max", "q", "avg", "min", "a"]
 
 
 def rand_stats(rng):
+    if rng.random() < 0.3:
+        key = rng.choice(TUPLE_KEYS)
+        regs = [list(rand_reg(rng, STAT_NAMES, True)) for _ in range(rng.randint(1, 4))]
+        return {"k": "stats", "key": key, "regs": regs, "data": rand_data(rng, True)}
     regs = [list(rand_reg(rng, STAT_NAMES)) for _ in range(rng.randint(0, 5))]
     needs = any(r[1] in ("max", "min", "nth") for r in regs)
     key = rng.choice(["id", "id", "len", "item0", "last", "sum"])
@@ -947,7 +1128,7 @@ def generate(tier, rng, mult):
     maxlen = 5 if thorough else 4
     for chapter in (0, 1, 2):           # no chapter / one chapter / one chapter with a sub-chapter
         for n in range(0, maxlen + 1 - (1 if chapter == 2 else 0)):
-            for seq in itertools.product(EXH_OPS, repeat=n):
+            for seq in itertools.product(EXH_OPS + (["cstream"] if chapter else []), repeat=n):
                 if n == maxlen and not thorough and rng.random() < 0.5:
                     continue            # quick: half of the longest layer, the full layer in the thorough tier
                 yield exh_history(seq, chapter)
@@ -988,18 +1169,24 @@ def shrink(d):
         for i, op in enumerate(ops):
             if op[0] == "rec":
                 e = op[1]
+                tail = op[2:]                      # the record's options (dict class, shared objects) stay
                 for key in list(e):
                     if key == "rid":
                         continue
                     e2 = dict(e)
                     del e2[key]
-                    yield {"k": "hist", "ops": ops[:i] + [["rec", e2]] + ops[i + 1:]}
+                    if rid_of(e2) is not None:     # every record keeps its id
+                        yield {"k": "hist", "ops": ops[:i] + [["rec", e2] + tail] + ops[i + 1:]}
                     if is_dict(e[key]):
                         for k2 in list(e[key]):
+                            if k2 == "rid":
+                                continue
                             e3 = dict(e)
                             e3[key] = dict(e[key])
                             del e3[key][k2]
-                            yield {"k": "hist", "ops": ops[:i] + [["rec", e3]] + ops[i + 1:]}
+                            yield {"k": "hist", "ops": ops[:i] + [["rec", e3] + tail] + ops[i + 1:]}
+                if tail and tail[0].get("cls") not in (None, "dict") and "shared" not in tail[0]:
+                    yield {"k": "hist", "ops": ops[:i] + [["rec", e]] + ops[i + 1:]}
             elif op[0] == "dels" and op[1] != [None, None, None]:
                 yield {"k": "hist", "ops": ops[:i] + [["dels", [None, None, None]]] + ops[i + 1:]}
             elif op[0] in ("pop", "del") and op[1] not in (0, None):
